@@ -1114,7 +1114,7 @@ class Interp:
 
         def E(f):
             return emap(f, *ins)
-        if p in self.hooks:
+        if p in self.hooks and p not in ("while", "scan_iter", "while_unroll"):
             return self.hooks[p](self, e, ins)
         if p in ("jit", "pjit", "closed_call", "core_call", "remat", "checkpoint", "custom_vjp_call", "custom_vjp_call_jaxpr"):
             name = P_.get("name", "")
